@@ -447,6 +447,7 @@ pub fn replay_main(path: &str, quiet: bool, trace: bool) -> ! {
 }
 
 pub fn run_main(def: &EngineDef, a: &RunArgs) -> ! {
+    install_panic_hook();
     let start = Instant::now();
     println!(
         "fvsim: property={} engine={} tier={} seed={:#x} runs={} workers={} budget_s={}",
